@@ -25,11 +25,17 @@
                 vanish when erased or replaced" ]                                  clause popon_screen
      paint-on : O(f) equals a candidate                                          [ "accumulates as received" ]
                                                                                    clause painton_screen
+                when it does not, but equals the reference screen as it will be later before the next erase (the reader
+                opens a timed span per word and shows it whole, ahead of reception), the clause is
+                painton_ahead_of_reception - still a failure, but told apart from a wrong screen; at the end of the
+                stream equality is required
      roll-up  : the reader emits one paragraph per rolled state, a row becomes visible as a whole.  The property's
                 roll-up clause is about which rows are shown, so: at most `depth` rows; the rows above the base row
                 equal the reference rows; the reference base row is a prefix of the shown base row (which may already
-                be there while the reference base row is still empty); rows are compared by absolute number when the
-                base row is 15, by order and count otherwise          clauses rollup_rows, rollup_prefix
+                be there while the reference base row is still empty) - or, because BS and extended characters replace
+                what was received, the shown screen equals the reference screen as it will be later on the same line
+                (before the next CR / erase); rows are compared by absolute number when the base row is 15, by order
+                and count otherwise                                   clauses rollup_rows, rollup_prefix
                 and with equality in the frame of a CR, EDM, mode change and at the end of the stream (unless the
                 reader already shows the state after that word)       clause rollup_quiescent
      attributes: colour, italics, underline of every non-space character of the matching candidate
@@ -38,7 +44,8 @@
      in the frame of a suppressed copy doubled_control_once.
    Timing: every begin / end is an exact frame multiple (begin_exact_frame, end_exact_frame); every frame at which
    the shown screen changes lies in the transmission window [frame of the word, frame after its doubled copy] of a
-   word that changes the displayed memory - in roll-up also of the RU / CR / PAC that opens a row - which also makes
+   word that changes the displayed memory - in roll-up also of the RU / CR / PAC that opens a row, in paint-on
+   also of a PAC (the reader starts a paragraph there) - which also makes
    it not earlier than that line's time code (begin_frame, end_frame; before_first_line when it precedes all data).
 
    Streams outside the domain (a line whose time code is before the clock or is not a valid label, words the
@@ -55,26 +62,35 @@ VARIABLES i,        \* record
           dk,       \* protocol the displayed memory was last written under: "popon" | "painton" | "rollup"
           cl1,      \* the last word was a closing word for roll-up content (CR, EDM, mode change)
           cov,      \* frames of observed screen changes that lie in the window of a triggering word
-          skipped   \* the record left the domain
-tvars == <<i, k, p1, p2, dk, cl1, cov, skipped>>
+          skipped,  \* the record left the domain
+          hist,     \* reference screens after every word so far: [scr, kind, base, depth, ep]
+          ep,       \* epoch: incremented when the displayed memory is rolled, erased or flipped
+          defer,    \* roll-up / paint-on frames whose screen matched no candidate: judged against later screens at the end
+          td, tn    \* "row reused": a PAC addressed a row that already held text in the displayed (paint-on) / non-displayed
+                    \* (pop-on) memory, and that memory has not been erased since; failures are then named <clause>_row_reused
+tvars == <<i, k, p1, p2, dk, cl1, cov, skipped, hist, ep, defer, td, tn>>
 
 Fail(r, x, clause) == PrintT(<<"FAIL", r, x, clause>>)
 Chk(cond, r, x, clause) == IF cond THEN TRUE ELSE Fail(r, x, clause)
 Min2(a, b) == IF a < b THEN a ELSE b
+Max2(a, b) == IF a > b THEN a ELSE b
 
 Rec == Recs[i]
 St  == Rec.steps[k]
-NoCand == [scr |-> <<>>, kind |-> "popon", base |-> 15, depth |-> 4]
+NoCand == [scr |-> <<>>, kind |-> "popon", base |-> 15, depth |-> 4, t |-> FALSE]
 
 -----------------------------------------------------------------------------
 (* Observed screens *)
 ObsIdx(rec, fr) == CHOOSE j \in 1..Len(rec.obs) :
                      /\ rec.obs[j].f <= fr
                      /\ (j = Len(rec.obs) \/ rec.obs[j + 1].f > fr)
-ObsAt(rec, fr) == rec.obs[ObsIdx(rec, fr)].scr
 ChangeFrames(rec) == {rec.obs[j].f : j \in 2..Len(rec.obs)}
 
-ChMatch(refch, cp) == IF refch >= ExtMark THEN cp \in ExtendedChars(B1(refch - ExtMark), B2(refch - ExtMark))
+\* Glyph tables are property C17, not C08: the one glyph C17 reports as a known finding (extended character 13h 2Ch, the
+\* caret, decoded as U+028C) is tolerated here so that it is not reported twice.
+ChMatch(refch, cp) == IF refch >= ExtMark
+                      THEN \/ cp \in ExtendedChars(B1(refch - ExtMark), B2(refch - ExtMark))
+                           \/ (refch - ExtMark = 19 * 256 + 44 /\ cp = 652)
                       ELSE cp = refch
 CellsEq(rc, oc)     == Len(rc) = Len(oc) /\ \A j \in 1..Len(rc) : ChMatch(rc[j].ch, oc[j][1])
 CellsPrefix(rc, oc) == Len(rc) <= Len(oc) /\ \A j \in 1..Len(rc) : ChMatch(rc[j].ch, oc[j][1])
@@ -95,48 +111,69 @@ RollChars(c, O) ==
   \A j \in 1..Len(c.scr) : IF c.scr[j].row = c.base THEN CellsPrefix(c.scr[j].cells, O[j][2])
                            ELSE CellsEq(c.scr[j].cells, O[j][2])
 RollRel(c, O) == RollShape(c, O) /\ RollChars(c, O)
-
-\* a candidate: [scr, kind, base, depth, exact]
 RollExact(c, O) == /\ Len(c.scr) = Len(O) /\ Len(O) <= c.depth
                    /\ \A j \in 1..Len(O) : (c.base = 15 => c.scr[j].row = O[j][1]) /\ CellsEq(c.scr[j].cells, O[j][2])
-Matches(c, O) == IF c.kind = "rollup" THEN (IF c.exact THEN RollExact(c, O) ELSE RollRel(c, O)) ELSE ScreenEq(c.scr, O)
 
-ClauseFor(cands, O, special) ==
-  IF special # "" THEN special
-  ELSE IF \E j \in 1..Len(cands) : cands[j].kind = "rollup"
-       THEN IF \E j \in 1..Len(cands) : cands[j].kind = "rollup" /\ cands[j].exact /\ RollRel(cands[j], O) THEN "rollup_quiescent"
-            ELSE IF \E j \in 1..Len(cands) : cands[j].kind = "rollup" /\ RollShape(cands[j], O) THEN "rollup_prefix"
-            ELSE "rollup_rows"
-       ELSE IF cands[1].kind = "painton" THEN "painton_screen" ELSE "popon_screen"
+\* a candidate: [scr, kind, base, depth, exact]
+Matches(c, O) == IF c.kind = "rollup" THEN (IF c.exact THEN RollExact(c, O) ELSE RollRel(c, O)) ELSE ScreenEq(c.scr, O)
+\* a later reference screen h = [scr, kind, base, depth, ep]
+FutMatch(h, O) == IF h.kind = "rollup" THEN RollExact(h, O) ELSE ScreenEq(h.scr, O)
+
+StrictClause(cands, O, special) ==
+  LET basecl ==
+        IF \E j \in 1..Len(cands) : cands[j].kind = "rollup"
+        THEN IF \E j \in 1..Len(cands) : cands[j].kind = "rollup" /\ cands[j].exact /\ RollRel(cands[j], O) THEN "rollup_quiescent"
+             ELSE IF \E j \in 1..Len(cands) : cands[j].kind = "rollup" /\ RollShape(cands[j], O) THEN "rollup_prefix"
+             ELSE "rollup_rows"
+        ELSE IF \E j \in 1..Len(cands) : cands[j].kind = "painton" THEN "painton_screen"
+        ELSE "popon_screen"
+  IN  IF special = "" THEN basecl ELSE special
+Reused(clause, t) == IF t /\ clause \in {"popon_screen", "painton_screen", "doubled_control_once", "other_channel_ignored"}
+                     THEN clause \o "_row_reused" ELSE clause
 
 \* diagnostics (only when the environment variable C08_DEBUG is set): the candidates as <<row, code points>>
 Dbg(x) == IF "C08_DEBUG" \in DOMAIN IOEnv THEN PrintT(x) ELSE TRUE
 Brief(scr) == [j \in 1..Len(scr) |-> <<scr[j].row, [x \in 1..Len(scr[j].cells) |-> scr[j].cells[x].ch]>>]
 
-\* attributes of the non-space characters, against the matching candidate
-AttrOk(c, O, r, fr) ==
-  \A j \in 1..Len(c.scr) :
-    \A x \in 1..Min2(Len(c.scr[j].cells), Len(O[j][2])) :
-      LET rc == c.scr[j].cells[x]  oc == O[j][2][x] IN
+\* attributes of the non-space characters, against the matching screen
+AttrOk(scr, O, r, fr, t) ==
+  LET sfx == IF t THEN "_row_reused" ELSE "" IN
+  \A j \in 1..Min2(Len(scr), Len(O)) :
+    \A x \in 1..Min2(Len(scr[j].cells), Len(O[j][2])) :
+      LET rc == scr[j].cells[x]  oc == O[j][2][x] IN
       IF rc.ch = 32 THEN TRUE
-      ELSE /\ Chk(oc[2] = rc.col, r, fr, "attr_colour")
-           /\ Chk((oc[3] = 1) = rc.it, r, fr, "attr_italic")
-           /\ Chk((oc[4] = 1) = rc.ul, r, fr, "attr_underline")
+      ELSE /\ Chk(oc[2] = rc.col, r, fr, "attr_colour" \o sfx)
+           /\ Chk((oc[3] = 1) = rc.it, r, fr, "attr_italic" \o sfx)
+           /\ Chk((oc[4] = 1) = rc.ul, r, fr, "attr_underline" \o sfx)
 
-CheckScreen(r, fr, cands, O, special) ==
-  LET hits == {j \in 1..Len(cands) : Matches(cands[j], O)} IN
-  IF hits = {} THEN Fail(r, fr, ClauseFor(cands, O, special)) /\ Dbg(<<"DBG", r, fr, [j \in 1..Len(cands) |-> Brief(cands[j].scr)], O>>)
-  ELSE AttrOk(cands[CHOOSE j \in hits : \A j2 \in hits : j <= j2], O, r, fr)
+\* "ok" | "defer" (roll-up / paint-on: judged at the end against later reference screens) | name of the failing clause
+Outcome(cands, O, special) ==
+  IF \E j \in 1..Len(cands) : Matches(cands[j], O) THEN "ok"
+  ELSE IF \E j \in 1..Len(cands) : cands[j].kind \in {"rollup", "painton"} /\ ~cands[j].exact THEN "defer"
+  ELSE StrictClause(cands, O, special)
 
-WithExact(c, e) == [scr |-> c.scr, kind |-> c.kind, base |-> c.base, depth |-> c.depth, exact |-> e]
+\* prints the verdict of one frame (TRUE in any case); a deferred frame prints nothing yet
+Judge(r, fr, cands, O, special, t) ==
+  LET out == Outcome(cands, O, special) IN
+  IF out = "ok"
+  THEN LET hits == {j \in 1..Len(cands) : Matches(cands[j], O)}
+           c    == cands[CHOOSE j \in hits : \A j2 \in hits : j <= j2]
+       IN  AttrOk(c.scr, O, r, fr, c.t)
+  ELSE IF out = "defer" THEN TRUE
+  ELSE Fail(r, fr, Reused(out, t)) /\ Dbg(<<"DBG", r, fr, [j \in 1..Len(cands) |-> Brief(cands[j].scr)], O>>)
+
+Deferred(fr, from, e, cands, O, special, t) ==
+  [fr |-> fr, from |-> from, ep |-> e, O |-> O, clause |-> Reused(StrictClause(cands, O, special), t), t |-> t,
+   paint |-> \E j \in 1..Len(cands) : cands[j].kind = "painton"]
+
+WithExact(c, e) == [scr |-> c.scr, kind |-> c.kind, base |-> c.base, depth |-> c.depth, exact |-> e, t |-> c.t]
 
 -----------------------------------------------------------------------------
 (* Steps *)
 InRec == i <= Len(Recs) /\ ~skipped /\ k <= Len(Rec.steps)
 
-NextDk == IF mode' = "rollup" THEN "rollup"
-          ELSE IF disp' = disp THEN dk
-          ELSE IF mode' = "painton" THEN "painton" ELSE "popon"
+NextDk == IF mode' \in {"rollup", "painton"} THEN mode'
+          ELSE IF disp' = disp THEN dk ELSE "popon"
 
 \* is the word at step k followed at once by its copy (next word, possibly on a new line that starts at the next frame)?
 CopyFollows(rec, kk, code, fr, d) ==
@@ -150,7 +187,18 @@ Pre(kind) == InRec /\ St.t = "W" /\ Kind(St.w) = kind
 Post(kind) ==
   /\ Receive(St.w)
   /\ LET fr     == frame
-         after  == [scr |-> Screen(disp'), kind |-> NextDk, base |-> base', depth |-> depth', exact |-> FALSE]
+         nep    == IF kind \in {"CR", "EDM", "EOC"} \/ (kind = "RU" /\ mode # "rollup") THEN ep + 1 ELSE ep
+         \* a PAC onto a row that already holds text in the memory being written (not in roll-up: the base row continues)
+         hit     == kind = "Pac" /\ mode \in {"popon", "painton"} /\ PacRow(B1(St.w), B2(St.w)) \in NonEmptyRows(Writing)
+         ntd     == CASE kind = "EOC" -> tn
+                      [] kind = "EDM" \/ (kind = "RU" /\ mode # "rollup") -> FALSE
+                      [] hit /\ mode = "painton" -> TRUE
+                      [] OTHER -> td
+         ntn     == CASE kind = "EOC" -> td
+                      [] kind = "ENM" \/ (kind = "RU" /\ mode # "rollup") -> FALSE
+                      [] hit /\ mode = "popon" -> TRUE
+                      [] OTHER -> tn
+         after  == [scr |-> Screen(disp'), kind |-> NextDk, base |-> base', depth |-> depth', exact |-> FALSE, t |-> ntd]
          closing == kind \in {"CR", "EDM", "RCL", "RDC", "EOC", "RU"}
          cands  == IF kind = "DupControl"
                    THEN <<after, WithExact(p1, cl1), WithExact(p2, cl1)>>
@@ -158,10 +206,18 @@ Post(kind) ==
          special == IF kind = "OtherChannel" \/ (kind = "Chars" /\ chan = 2) THEN "other_channel_ignored"
                     ELSE IF kind = "DupControl" THEN "doubled_control_once" ELSE ""
          changed == after.scr # p1.scr
-         trigger == changed \/ (mode' = "rollup" /\ kind \in {"RU", "CR", "Pac"})
+         trigger == changed \/ (mode' = "rollup" /\ kind \in {"RU", "CR", "Pac"}) \/ (mode' = "painton" /\ kind = "Pac")
          d       == IF CopyFollows(Rec, k, lastCtl', fr, df) THEN 1 ELSE 0
-     IN  /\ CheckScreen(Rec.id, fr, cands, ObsAt(Rec, fr), special) = TRUE
-         /\ p1' = [scr |-> after.scr, kind |-> after.kind, base |-> after.base, depth |-> after.depth]
+         O       == Rec.obs[ObsIdx(Rec, fr)].scr
+         t       == \E j \in 1..Len(cands) : cands[j].t
+     IN  /\ Judge(Rec.id, fr, cands, O, special, t) = TRUE
+         /\ td' = ntd /\ tn' = ntn
+         /\ defer' = IF Outcome(cands, O, special) = "defer"
+                     THEN Append(defer, Deferred(fr, Max2(1, Len(hist) + 2 - Len(cands)), nep, cands, O, special, t))
+                     ELSE defer
+         /\ hist' = Append(hist, [scr |-> after.scr, kind |-> after.kind, base |-> after.base, depth |-> after.depth, ep |-> nep])
+         /\ ep' = nep
+         /\ p1' = [scr |-> after.scr, kind |-> after.kind, base |-> after.base, depth |-> after.depth, t |-> ntd]
          /\ p2' = p1
          /\ dk' = NextDk
          /\ cl1' = (IF kind = "DupControl" THEN cl1 ELSE closing)
@@ -180,37 +236,53 @@ TSpecial == Pre("Special") /\ Post("Special")       TExtended == Pre("Extended")
 TDupControl == Pre("DupControl") /\ Post("DupControl")
 TOtherChannel == Pre("OtherChannel") /\ Post("OtherChannel")
 
-\* frames fr0 .. fr1 carry no data: the screen is the current one throughout
-Quiet(rec, fr0, fr1, exact) ==
-  LET c == [scr |-> Screen(disp), kind |-> dk, base |-> base, depth |-> depth, exact |-> exact] IN
-  IF fr1 < fr0 THEN TRUE
-  ELSE /\ CheckScreen(rec.id, fr0, <<c>>, ObsAt(rec, fr0), "")
-       /\ \A j \in 2..Len(rec.obs) :
-            IF rec.obs[j].f > fr0 /\ rec.obs[j].f <= fr1 THEN CheckScreen(rec.id, rec.obs[j].f, <<c>>, rec.obs[j].scr, "") ELSE TRUE
+\* frames fr0 .. fr1 carry no data: the screen is the current one throughout.  The indices of the observation entries
+\* to judge: the one in force at fr0 and every one that starts in (fr0, fr1]
+QuietIdx(rec, fr0, fr1) ==
+  IF fr1 < fr0 THEN <<>>
+  ELSE <<ObsIdx(rec, fr0)>> \o SelectSeq([j \in 1..Len(rec.obs) |-> j], LAMBDA j : rec.obs[j].f > fr0 /\ rec.obs[j].f <= fr1)
+QuietCand(exact) == <<[scr |-> Screen(disp), kind |-> dk, base |-> base, depth |-> depth, exact |-> exact, t |-> td]>>
+QuietFr(rec, j, fr0) == Max2(rec.obs[j].f, fr0)
+QuietJudge(rec, fr0, fr1, exact) ==
+  \A n \in 1..Len(QuietIdx(rec, fr0, fr1)) :
+    LET j == QuietIdx(rec, fr0, fr1)[n] IN Judge(rec.id, QuietFr(rec, j, fr0), QuietCand(exact), rec.obs[j].scr, "", td)
+QuietDefers(rec, fr0, fr1) ==
+  LET sel == SelectSeq(QuietIdx(rec, fr0, fr1), LAMBDA j : Outcome(QuietCand(FALSE), rec.obs[j].scr, "") = "defer")
+  IN  [n \in 1..Len(sel) |-> Deferred(QuietFr(rec, sel[n], fr0), Max2(1, Len(hist)), ep, QuietCand(FALSE), rec.obs[sel[n]].scr, "", td)]
 
 TNewLine ==
   /\ InRec /\ St.t = "L"
   /\ LET d == (Rec.df = 1) IN
      IF LabelValid(d, St.lab) /\ LabelFrames(d, St.lab) >= frame
      THEN /\ NewLine(d, St.lab)
-          /\ (k = 1 \/ Quiet(Rec, frame, LabelFrames(d, St.lab) - 1, FALSE)) = TRUE
-          /\ p1' = (IF frame' = frame THEN p1 ELSE [scr |-> Screen(disp), kind |-> dk, base |-> base, depth |-> depth])
+          /\ (k = 1 \/ QuietJudge(Rec, frame, LabelFrames(d, St.lab) - 1, FALSE)) = TRUE
+          /\ defer' = IF k = 1 THEN defer ELSE defer \o QuietDefers(Rec, frame, LabelFrames(d, St.lab) - 1)
+          /\ p1' = (IF frame' = frame THEN p1 ELSE [scr |-> Screen(disp), kind |-> dk, base |-> base, depth |-> depth, t |-> td])
           /\ p2' = (IF frame' = frame THEN p2 ELSE p1')
           /\ skipped' = FALSE
      ELSE /\ PrintT(<<"SKIP", Rec.id, "line_time_code_before_clock_or_invalid">>)
-          /\ skipped' = TRUE /\ UNCHANGED <<dvars, p1, p2>>
-  /\ k' = k + 1 /\ UNCHANGED <<i, dk, cl1, cov>> /\ UNCHANGED gvars
+          /\ skipped' = TRUE /\ UNCHANGED <<dvars, p1, p2, defer>>
+  /\ k' = k + 1 /\ UNCHANGED <<i, dk, cl1, cov, hist, ep, td, tn>> /\ UNCHANGED gvars
 
 \* words outside the protocols (attribute codes, AOF/AON/FON/TR/RTD, undefined pairs): the record is not judged
 TUnsup ==
   /\ InRec /\ St.t = "W" /\ Kind(St.w) \in {"Unsupported", "Undefined"}
   /\ PrintT(<<"SKIP", Rec.id, "word_outside_protocols">>)
-  /\ skipped' = TRUE /\ k' = k + 1 /\ UNCHANGED <<i, p1, p2, dk, cl1, cov, dvars>> /\ UNCHANGED gvars
+  /\ skipped' = TRUE /\ k' = k + 1 /\ UNCHANGED <<i, p1, p2, dk, cl1, cov, hist, ep, defer, td, tn, dvars>> /\ UNCHANGED gvars
 
-\* end of the file: three more frames without data, then the timing clauses
+\* a deferred frame: the shown screen must be a later reference screen of the same epoch (the row / span as it will be).
+\* Roll-up: that is the admitted "row as a whole".  Paint-on: a failure of its own name.
+Resolve(r, d) ==
+  LET fut == {j \in d.from..Len(hist) : hist[j].ep = d.ep /\ FutMatch(hist[j], d.O)} IN
+  IF fut = {} THEN Fail(r, d.fr, d.clause) /\ Dbg(<<"DBG", r, d.fr, <<>>, d.O>>)
+  ELSE IF d.paint THEN Fail(r, d.fr, "painton_ahead_of_reception")
+  ELSE AttrOk(hist[CHOOSE j \in fut : \A j2 \in fut : j <= j2].scr, d.O, r, d.fr, d.t)
+
+\* end of the file: three more frames without data, the deferred frames, then the timing clauses
 TEnd ==
   /\ InRec /\ St.t = "E"
-  /\ Quiet(Rec, frame, frame + 3, TRUE) = TRUE
+  /\ QuietJudge(Rec, frame, frame + 3, TRUE) = TRUE
+  /\ (\A n \in 1..Len(defer) : Resolve(Rec.id, defer[n])) = TRUE
   /\ LET first == Rec.obs[1].f + 2 IN
      (\A j \in 2..Len(Rec.obs) :
         LET x == Rec.obs[j].f IN
@@ -221,24 +293,27 @@ TEnd ==
         /\ Chk(Rec.pars[j][2] = 1, Rec.id, j, "begin_exact_frame")
         /\ Chk(Rec.pars[j][4] = 1, Rec.id, j, "end_exact_frame")) = TRUE
   /\ Chk(Rec.obs[1].scr = <<>>, Rec.id, Rec.obs[1].f, "before_first_line") = TRUE
-  /\ k' = k + 1 /\ UNCHANGED <<i, p1, p2, dk, cl1, cov, skipped, dvars>> /\ UNCHANGED gvars
+  /\ k' = k + 1 /\ UNCHANGED <<i, p1, p2, dk, cl1, cov, skipped, hist, ep, defer, td, tn, dvars>> /\ UNCHANGED gvars
 
 \* next record: the decoder is reset
 TNextRec ==
   /\ i <= Len(Recs) /\ (skipped \/ k > Len(Rec.steps))
   /\ i' = i + 1 /\ k' = 1 /\ p1' = NoCand /\ p2' = NoCand /\ dk' = "popon" /\ cl1' = FALSE /\ cov' = {} /\ skipped' = FALSE
+  /\ hist' = <<>> /\ ep' = 0 /\ defer' = <<>> /\ td' = FALSE /\ tn' = FALSE
   /\ mode' = "none" /\ depth' = 2 /\ base' = 15 /\ disp' = EmptyMem /\ ndisp' = EmptyMem /\ cur' = <<15, 1>>
   /\ pen' = DefaultPen /\ lastCtl' = 0 /\ chan' = 1 /\ frame' = 0 /\ df' = FALSE
   /\ UNCHANGED gvars
 
 TFinish ==
   /\ i = Len(Recs) + 1 /\ PrintT(<<"DONE", Len(Recs)>>)
-  /\ i' = i + 1 /\ UNCHANGED <<k, p1, p2, dk, cl1, cov, skipped, dvars>> /\ UNCHANGED gvars
+  /\ i' = i + 1 /\ UNCHANGED <<k, p1, p2, dk, cl1, cov, skipped, hist, ep, defer, td, tn, dvars>> /\ UNCHANGED gvars
 
 TInit ==
   /\ DInit /\ frame = 0 /\ df = FALSE
   /\ i = 1 /\ k = 1 /\ p1 = NoCand /\ p2 = NoCand /\ dk = "popon" /\ cl1 = FALSE /\ cov = {} /\ skipped = FALSE
+  /\ hist = <<>> /\ ep = 0 /\ defer = <<>> /\ td = FALSE /\ tn = FALSE
   /\ ph = "trace" /\ style = "none" /\ ncap = 0 /\ nrow = 0 /\ nitem = 0 /\ pend = 0 /\ c2 = FALSE /\ sent = <<>> /\ budget = 0
+  /\ lastch = FALSE /\ clean = FALSE
 
 TNext ==
   \/ TNull \/ TChars \/ TPac \/ TMidRow \/ TRCL \/ TRDC \/ TRU \/ TCR \/ TEOC \/ TEDM \/ TENM \/ TBS \/ TTO \/ TDER
